@@ -266,7 +266,9 @@ impl SparseMatrix {
                     }
                     // .max(1) because we've added one padding element if vlen
                     // was zero
-                    let num_padding = dirlen - vlen.max(1);
+                    // (saturating because dirlen is zero if all the elements in
+                    // this direction are empty)
+                    let num_padding = dirlen.saturating_sub(vlen.max(1));
                     for _ in 0..num_padding {
                         write!(w, " 0")?;
                     }
